@@ -95,6 +95,8 @@ def op_sx(op):
             sx.hexb(a.get("request_data", b"")), tygen.to_sx(a["dt"]) if a.get("dt") else "N", sx.name(a.get("name", "generic")),
             "T" if a.get("connected", True) else "F", "T" if a.get("unconnected_send", False) else "F",
             route_sx(a.get("route_path", True)))
+    if k == "pending":
+        return "(pending%s)" % "".join(" " + sx.hexb(r) for r in op[1])
     if k == "with":
         return "(with (%s) %s)" % (" ".join(op_sx(o) for o in op[1]), "T" if op[2] else "F")
     raise ValueError(op)
@@ -181,6 +183,10 @@ def run_impl(model, scn, path, auto, faults, rnd, ops, driver_cls=None):
                         a["route_path"] = [PortSegment(p, l) for p, l in rp]
                     t = d.generic_message(data_type=tygen.to_py(dt) if dt else None, **a)
                     return tag_str(t)
+                if k == "pending":
+                    if d._sock is not None:
+                        d._sock.pending[:] = list(op[1])
+                    return "(ok N)"
                 if k == "with":
                     outs = []
                     try:
@@ -461,6 +467,117 @@ def flush(ctx, model, lines, pend):
         compare(ctx, stream, {"ops": case["ops"], "faults": case["faults"], "path": case["path"], "scenario": case["scenario"][:200]}, impl, out)
     lines.clear()
     pend.clear()
+
+
+def alter_client_reply(rng, reply):
+    """one alteration of an encapsulated reply (any command) -> (description, bytes)"""
+    out = bytearray(reply)
+
+    def relen(b):
+        if len(b) >= 4:
+            struct.pack_into("<H", b, 2, max(0, len(b) - 24))
+        return bytes(b)
+    how = rng.choice(["encap", "encap", "cut", "cut", "cut", "flip", "flip", "status", "status", "command", "session", "items"])
+    st_off = 48 if reply[:2] == b"\x70\x00" else 42
+    if how == "encap" and len(out) >= 12:
+        st = rng.choice([1, 2, 3, 0x64, 0x65, 0x69, 0x10000, 0x80000000, 0xFFFFFFFF])
+        struct.pack_into("<I", out, 8, st)
+        return "encapsulation status %#x" % st, bytes(out)
+    if how == "cut":
+        n = rng.choice([0, 1, 2, 4, 8, 11, 12, 23, 24, 26, 28, 30, 40, 41, 42, 43, 44, 46, 47, 48, 49, 50, rng.randint(0, max(0, len(out) - 1))])
+        n = min(n, len(out))
+        return "cut to %d bytes" % n, relen(out[:n])
+    if how == "flip" and out:
+        i = rng.randrange(len(out))
+        out[i] ^= 1 << rng.randrange(8)
+        return "bit flipped in byte %d" % i, bytes(out)
+    if how == "status" and len(out) > st_off + 1:
+        st = rng.choice([1, 4, 5, 6, 8, 0x1E, 0xFF])
+        ext = rng.choice([[], [], [0x0100], [0x2105], [1, 2]])
+        body = out[:st_off] + bytes([st, len(ext)]) + b"".join(struct.pack("<H", e) for e in ext)
+        b = bytearray(body)
+        struct.pack_into("<H", b, 2, len(b) - 24)
+        if len(b) >= st_off - 4:
+            struct.pack_into("<H", b, st_off - 6 if st_off == 48 else st_off - 4, len(b) - (st_off - 4 if st_off == 48 else st_off - 2))
+        return "status %#x ext %s" % (st, ext), bytes(b)
+    if how == "command" and len(out) >= 2:
+        out[0] = rng.choice([0x65, 0x66, 0x6F, 0x70, 0x63, 0x00, 0xFF])
+        return "command %#x" % out[0], bytes(out)
+    if how == "session" and len(out) >= 8:
+        struct.pack_into("<I", out, 4, rng.choice([0, 1, 0xFFFFFFFF, rng.getrandbits(32)]))
+        return "session handle changed", bytes(out)
+    if how == "items" and len(out) >= 32:
+        struct.pack_into("<H", out, 30, rng.choice([0, 1, 3, 0xFFFF]))
+        return "item count changed", bytes(out)
+    return "unchanged", bytes(out)
+
+
+def run_altered_client(ctx, model, lines, pend, focus, n=None):
+    """CIPDriver histories with scripted replies: the history runs healthy, then again with the socket's queue
+    pre-loaded (pseudo-call `pending`, after a call that left the driver with a socket) with the healthy replies of the
+    rest of the history of which one is altered — encapsulation status, cut at any length, a flipped bit, a CIP error
+    status, another command code, session handle or item count.  Forward Open / Forward Close / generic / identity
+    replies are all reached this way.  Transcript equality with the Lean client; nothing but library exceptions."""
+    rng = ctx.rng
+    n = ctx.budget(60, 600) if n is None else n
+    for i in range(n):
+        scn, policy, generic = gen_base(rng, policy=rng.choice([(True, True, True), (True, True, True), (True, False, True)]))
+        path = rng.choice(["10.0.0.1", "10.0.0.1/bp/1", "10.0.0.1/bp/1/enet/10.11.12.13/bp/0"])
+        auto = rng.random() < 0.5
+        rnd = [bytes(rng.getrandbits(8) for _ in range(8)) for _ in range(8)]
+        ops = [("open",)]
+        for _ in range(rng.randint(1, 4)):
+            r = rng.random()
+            if r < 0.6:
+                ops.append(gen_gm(rng))
+            elif r < 0.7:
+                ops.append(("listid",))
+            elif r < 0.8:
+                ops.append(("modinfo", rng.choice([0, 1, 5])))
+            elif r < 0.9:
+                ops.append(("close",))
+                ops.append(("open",))
+            else:
+                ops.append(("listid",))
+        if rng.random() < 0.6:
+            ops.append(("close",))
+        # insertion points: behind a call after which the driver holds a socket
+        has_sock, points = False, []
+        for j, o in enumerate(ops):
+            if o[0] == "open":
+                has_sock = True
+            elif o[0] == "close":
+                has_sock = False
+            if has_sock and j + 1 < len(ops):
+                points.append(j + 1)
+        if not points:
+            continue
+        j = rng.choice(points)
+        full = run_impl(model, scn, path, auto, {}, rnd, ops)
+        if any(r.startswith("(raise") for r in full["results"][:j]):
+            continue
+        pre = run_impl(model, scn, path, auto, {}, rnd, ops[:j])
+        tail = [r for r in full["replies"][len(pre["replies"]):]]
+        if not tail:
+            continue
+        k = rng.randrange(len(tail))
+        what, bad = alter_client_reply(rng, tail[k])
+        scripted = list(tail)
+        scripted[k] = bad
+        if rng.random() < 0.2:
+            scripted = scripted[:k + 1]
+        ops2 = ops[:j] + [("pending", scripted)] + ops[j:]
+        ctx.count("client-altered/alteration/%s" % what.split(" ")[0])
+        ctx.count("client-altered/reply-command/%s" % tail[k][:1].hex())
+
+        def check(impl, case, what=what):
+            for r in impl["results"]:
+                if "(raise foreign" in r or "(raise hang" in r:
+                    ctx.violation("public-call-raises-foreign:client:" + r.split(":")[-1].strip(")"),
+                                  {"ops": case["ops"], "alteration": what, "path": case["path"]}, r[:200])
+                    break
+        run_case(ctx, model, lines, pend, "client-altered", focus, scn, path, auto, {}, rnd, ops2,
+                 extra_case={"alteration": what, "altered_reply": k}, check=check)
 
 
 def run_c17(ctx, model, focus="C17"):
